@@ -29,6 +29,7 @@ RULE = (
     "validators, or a duplicate group of size >= 3."
 )
 RULE += (" " + 'File paths have equal and different leaf directory names under different ancestors, nested and relative forms.')
+RULE += (" One document in five is a correlation rule drawing title, id and path from the same pools.")
 ASSUMPTIONS = [
     "vf/ref/conditions.py defines which detections a condition refers to",
     "issues are compared as multisets (the order in which issues are reported is C20's subject)",
@@ -47,12 +48,14 @@ def _norm_issue(issue, key_of):
 
 def _load(docs):
     from sigma.exceptions import SigmaRuleLocation
+    from sigma.correlations import SigmaCorrelationRule
     from sigma.rule import SigmaRule
     rules = []
     for d in docs:
         doc = copy.deepcopy(d)
         path = doc.pop("_path", None)
-        rules.append(SigmaRule.from_dict(doc, source=SigmaRuleLocation(path) if path else None))
+        cls = SigmaCorrelationRule if "correlation" in doc else SigmaRule
+        rules.append(cls.from_dict(doc, source=SigmaRuleLocation(path) if path else None))
     return rules
 
 
@@ -84,6 +87,8 @@ def _snapshot(rules):
 def expected_reference_issues(docs, exclusions):
     exp = Counter()
     for i, d in enumerate(docs):
+        if "correlation" in d:
+            continue
         det = d["detection"]
         names = [k for k in det if k != "condition"]
         conds = det["condition"] if isinstance(det["condition"], list) else [det["condition"]]
@@ -194,7 +199,7 @@ def check_case(case: dict) -> Outcome:
         missing, extra = exp - got_ref, got_ref - exp
         kind = sorted({k[0] for k in list(missing) + list(extra)})[0]
         out.fail(f"C19:inexact:{kind}:{'missing' if missing else 'extra'}",
-                 f"validators {vnames} exclusions {excl}: missing {list(missing)[:3]} extra {list(extra)[:3]}; docs {[(d['title'], d.get('id'), d.get('_path'), d['detection']) for d in docs]}"[:1200])
+                 f"validators {vnames} exclusions {excl}: missing {list(missing)[:3]} extra {list(extra)[:3]}; docs {[(d['title'], d.get('id'), d.get('_path'), d.get('detection', 'correlation rule')) for d in docs]}"[:1200])
     return out
 
 
@@ -224,6 +229,9 @@ def cases(draw):
             d["_path"] = draw(st.sampled_from(["/r/a/rule_one_long_name.yml", "/r/b/rule_one_long_name.yml", "/r/c/rule_one_long_name.yml", "/q/a/rule_one_long_name.yml", "/q/z/a/rule_one_long_name.yml", "a/rule_one_long_name.yml", "/rule_one_long_name.yml", "/q/a/x.yml", f"/r/a/unique_rule_name_{i}.yml", "/r/a/x.yml"]))
         if draw(st.booleans()):
             d["tags"] = draw(st.lists(st.sampled_from(["attack.t1059", "attack.execution", "tlp.red", "unknown.ns", "cve.2024-1", "attack.execution"]), max_size=3))
+        if draw(st.integers(0, 4)) == 0:  # a correlation rule takes part in the id / title / file-name groups like any rule
+            d = {k: v for k, v in d.items() if k not in ("detection", "logsource")}
+            d["correlation"] = {"type": "event_count", "rules": [draw(st.sampled_from(UUIDS[:3] + ["some_rule"]))], "timespan": "5m", "group-by": ["user"], "condition": {"gte": 2}}
         docs.append(d)
     k = draw(st.integers(1, 8))
     core = ["dangling_detection", "dangling_condition", "identifier_uniqueness", "duplicate_title", "duplicate_filename"]
